@@ -38,7 +38,56 @@ def main(tier):
         return sum(1 for c in h if c["call"] == "sfactor") >= 2 and any(c["call"] == "sinit" and c["refact"] for c in h)
     apicheck.run_sessions(ck, 8 if quick else 9, 40 if quick else 800, rng, precs=("d", "z") if quick else ("d", "s", "z", "c"), threads=(1, 2, 3, 4, 8),
                           nmax=24 if quick else 60, hist_filter=refactors, pert=20, simulate=None if quick else 40000)
+    forced_reuse(ck, rng, 16 if quick else 160)
     return ck.finish()
+
+
+def forced_reuse(ck, rng, count):
+    """the row order of a first factorization forced on new values (refact + usepr at u = 0, what the header of p?gstrf recommends for that)
+    where pivots of the first eliminated columns have become exactly zero: the request must fall back to a valid new order (SluApi!ObsSFactor:
+    info = 0 for a nonsingular matrix, factors of the current values); and forced on unchanged values: the order must be kept"""
+    import api, tlc, json
+    wd = os.path.join(ck.dir, "forced")
+    os.makedirs(wd, exist_ok=True)
+    tlc.stage(wd)
+    items = []
+    for i in range(count):
+        prec = ("d", "z", "s", "c")[i % 4]
+        gen = rng.choice(["mat gen=grid n=16 k=4", "mat gen=grid n=25 k=5", "mat gen=banded n=%d kl=2 ku=2" % rng.randint(6, 24), "mat gen=random n=%d dens=300 fulldiag=1" % rng.randint(6, 24)])
+        zp = (0, 1, 2, 3)[(i // 4) % 4]
+        txt = "\n".join(["ienv p1=%d p2=%d p3=%d" % (rng.choice([1, 2, 4]), rng.choice([1, 2, 3]), rng.choice([2, 4, 8])), "track on=1",
+                         "%s seed=%d stype=NC scale=none vstyle=0" % (gen, rng.randrange(10 ** 6)), "permc order=%d" % rng.choice([-1, 1, 2, 3]),
+                         "sinit P=%d refact=0 usepr=0 lwork=0 u=1.0" % rng.choice([1, 2, 4]), "sfactor", "sdropac",
+                         ("vals seed=%d zp=%d" % (rng.randrange(10 ** 6), zp)) if zp else "scon norm=1",
+                         "sinit P=%d refact=1 usepr=1 lwork=0 u=0.0" % rng.choice([1, 2, 4]), "sfactor",
+                         "ssolve trans=%s nrhs=2 pad=1 seed=%d" % (rng.choice(["N", "T"]), rng.randrange(10 ** 6)), "sfinal", "destroy"]) + "\n"
+        items.append((i, prec, zp, txt))
+    for p in ("d", "z", "s", "c"):
+        api.driver(p)
+
+    def one(a):
+        i, prec, zp, txt = a
+        st, op, err = api.run_script(txt, wd, "f%d" % i, prec=prec)
+        v = api.validate_calls(wd, "f%d" % i, op) if st == "exit:0" else None
+        return i, prec, zp, txt, st, v, err
+    zeroed = 0
+    for i, prec, zp, txt, st, v, err in common.pmap(one, items):
+        key = "forced:%s:%d:%d" % (prec, zp, i)
+        ck.case(key)
+        if st != "exit:0":
+            ck.violation(key, "forced-reuse session did not run to completion (%s) %s" % (st, err[-300:]), {"script": txt, "precision": prec})
+            continue
+        zeroed += sum(r.get("zeroed", 0) for r in v["recs"] if r.get("call") == "vals")
+        if tlc.inconclusive(v):
+            continue
+        if not v["ok"]:
+            rl = v["rejected_line"]
+            rec = v["recs"][rl - 1] if rl and rl <= len(v["recs"]) else None
+            ck.violation("forced:%s" % (rec.get("call") if rec else "?"), "precision %s: forced reuse of the row order (u = 0), %d old pivot(s) zeroed: record %s rejected by SluApi (%s): %s" % (
+                prec, zp, rl, api.diagnose(rec) if rec else v["errors"][:2], json.dumps(rec)[:500]), {"script": txt, "precision": prec})
+        else:
+            ck.traces()
+    ck.notes["forced_reuse_old_pivots_zeroed"] = zeroed
 
 
 if __name__ == "__main__":
